@@ -1109,6 +1109,57 @@ def unroll_reflective_loops(tree):
     return log
 
 
+def fold_single_use_conditions(tree):
+    """`flag = <condition>` immediately followed by `if flag:` / `if not flag:` where `flag` is bound once and read only
+    there: the condition goes back into the test (`stopped_by_us = f.check(X) and not self.consumers; if not stopped_by_us:`).
+    Only for conditions proper - comparisons, boolean operators, `not`, isinstance / `.check(...)` calls."""
+    log = []
+
+    def is_condition(e):
+        if isinstance(e, (ast.Compare, ast.BoolOp)):
+            return True
+        if isinstance(e, ast.UnaryOp) and isinstance(e.op, ast.Not):
+            return True
+        if isinstance(e, ast.Call) and ((isinstance(e.func, ast.Name) and e.func.id in ("isinstance", "hasattr", "callable", "bool")) or (
+                isinstance(e.func, ast.Attribute) and e.func.attr in ("check", "active", "connected", "startswith", "endswith"))):
+            return True
+        return False
+
+    for fn in [n for n in ast.walk(tree) if isinstance(n, FUNC)]:
+        counts = {}
+        for n in _shallow(fn.body):
+            if isinstance(n, ast.Name):
+                counts.setdefault(n.id, [0, 0])[0 if isinstance(n.ctx, ast.Load) else 1] += 1
+        nested_uses = {y.id for x in ast.walk(fn) if isinstance(x, FUNC + (ast.Lambda,)) and x is not fn for y in ast.walk(x) if isinstance(y, ast.Name)}
+
+        def block(stmts):
+            i = 0
+            while i < len(stmts):
+                st = stmts[i]
+                for field in ("body", "orelse", "finalbody"):
+                    b = getattr(st, field, None)
+                    if isinstance(b, list) and b and isinstance(b[0], ast.stmt) and not isinstance(st, FUNC + (ast.ClassDef,)):
+                        block(b)
+                for h in getattr(st, "handlers", None) or []:
+                    block(h.body)
+                if (isinstance(st, ast.Assign) and len(st.targets) == 1 and isinstance(st.targets[0], ast.Name) and is_condition(st.value)
+                        and counts.get(st.targets[0].id) == [1, 1] and st.targets[0].id not in nested_uses and i + 1 < len(stmts)
+                        and isinstance(stmts[i + 1], ast.If)):
+                    name = st.targets[0].id
+                    t = stmts[i + 1].test
+                    if (isinstance(t, ast.Name) and t.id == name) or (isinstance(t, ast.UnaryOp) and isinstance(t.op, ast.Not) and isinstance(t.operand, ast.Name)
+                                                                       and t.operand.id == name):
+                        stmts[i + 1].test = _Replace(None, st.value, name).visit(t)
+                        log.append("condition `%s` folded into its only test at line %d" % (name, st.lineno))
+                        del stmts[i]
+                        continue
+                i += 1
+        block(fn.body)
+    if log:
+        ast.fix_missing_locations(tree)
+    return log
+
+
 def unroll_table_dispatch(tree):
     """Data-driven dispatch over a small literal table becomes the if-ladder it stands for:
 
